@@ -1,6 +1,7 @@
 package checks
 
 import (
+	"time"
 	"fmt"
 	"strings"
 
@@ -586,11 +587,12 @@ func init() {
 	}
 	eng.Register(&eng.Check{
 		ID: "C12", Level: "exploration",
-		Rule: "every program of ≤3 (quick) / ≤5 (thorough, level 5 as far as the budget allows) statements over the 33-statement glob fragment F12 (plain objects incl. nested, upper-case and non-ASCII names; explicit label/opacity/shape; single, double and triple globs; prefix/suffix/infix patterns; multi-level and scoped globs; positive and negative filters; edge-creating globs; edge-attribute globs; one layer board); oracle: the program and its glob-free twin (globs instantiated on every matching target that exists, and on later targets at the moment they are created, values following source order; * one level, ** through containers, *** also into the board; no self-connections) compile to the same canonical diagram (order-insensitive), both through the real compiler",
+		QuickBudget: 400 * time.Second, // level 4 is 2.1M programs: ≈70 s idle, ≈250 s at load 100
+		Rule: "every program of ≤4 (quick) / ≤5 (thorough, level 5 as far as the budget allows) statements over the 33-statement glob fragment F12 (plain objects incl. nested, upper-case and non-ASCII names; explicit label/opacity/shape; single, double and triple globs; prefix/suffix/infix patterns; multi-level and scoped globs; positive and negative filters; edge-creating globs; edge-attribute globs; one layer board); oracle: the program and its glob-free twin (globs instantiated on every matching target that exists, and on later targets at the moment they are created, values following source order; * one level, ** through containers, *** also into the board; no self-connections) compile to the same canonical diagram (order-insensitive), both through the real compiler",
 		Assumptions: []string{"programs in which an attribute read by a remembered glob filter is assigned after the glob are skipped: the statement does not say whether filters are re-evaluated", "glob bodies only set attributes or connect existing objects; bodies that create objects the same glob would match again have no defined fixpoint (d2's own tests mark that behaviour as open)", "edge globs with a literal endpoint that does not exist yet are skipped"},
 		Oracles: map[string]eng.Oracle{"twin": c12Oracle},
 		Run: func(w *eng.W) {
-			for k := 1; k <= w.Pick(3, 5); k++ {
+			for k := 1; k <= w.Pick(4, 5); k++ {
 				k := k
 				w.Phase(fmt.Sprintf("stmts<=%d", k), func() {
 					Seqs(alpha, k, func(s []string) { w.Eval("twin", strings.Join(s, "\n")) })
